@@ -242,7 +242,7 @@ pub fn bulk_name(dir: &str, tag: usize, i: usize) -> String {
 }
 
 pub const NAME_POOL: [&str; 14] = [
-    "a.txt", "b.txt", "sub/c.txt", "with space.txt", "sub dir/d e.txt", "ünï.txt", "日本語.txt", "quo\"te.txt", "back\\slash.txt", "tab\there.txt", "deep/er/f.txt", "émoji-✓.md", "x.log", "build/out.bin",
+    "a.txt", "ends with a blank.txt ", "sub/c.txt", "with space.txt", "sub dir/d e.txt", "ünï.txt", "日本語.txt", "quo\"te.txt", "back\\slash.txt", "tab\there.txt", "deep/er/f.txt", "émoji-✓.md", "x.log", "build/out.bin",
 ];
 
 pub fn name_class(p: &str) -> &'static str {
